@@ -1,6 +1,6 @@
 (* RunResp.v — executable entry points for C01 / C03 (and the response half of C09): a generated
    program, one of its operations, and payload vectors with what the compiled consumer crate did. *)
-From GC Require Import Base Rust Json TypeExpr Schema Query Attrs Codegen Serde RunSerde RunGen Conform Compose.
+From GC Require Import Base Rust Json TypeExpr Schema Query Attrs Codegen Serde RunSerde RunGen Conform Compose Exact.
 
 Inductive pelem := PKey (k : string) | PIdx (n : N).
 
@@ -131,3 +131,32 @@ Definition corr_cert (c : rcase) : bool :=
 
 (* listed for the evidence: operations NOT covered by the certificate *)
 Definition info_uncertified (c : rcase) : bool := certified c.
+
+(* ---------- C03 by certificate (Exact.certified_rejects): for a certified operation every payload
+   that violates `enforced` is rejected, whatever its size.  Per case: (a) the theorem's prediction
+   against the compiled crate: whatever the crate accepted satisfies `enforced`; (b) which of the
+   run's corruptions are covered by the theorem (they violate `enforced`). *)
+Definition exact_certified (c : rcase) : bool :=
+  certified c &&
+  match model_items c with
+  | Some items => o_other_variant (g_opts (r_g c)) || env_no_other items
+  | None => false
+  end.
+
+Definition enforced_on (c : rcase) (j : json) : bool :=
+  match model_schema c with
+  | Some s => enforced s (g_doc (r_g c)) (r_op c) (o_other_variant (g_opts (r_g c))) 60 j
+  | None => true
+  end.
+
+Definition corr_exact (c : rcase) : bool :=
+  negb (exact_certified c) ||
+  forallb (fun v => match v_obs v with
+                    | SOk _ | SOkNoSer => enforced_on c (v_payload v)
+                    | _ => true end) (r_vectors c).
+
+(* corrupted vectors whose rejection is NOT implied by the theorem (the operation is not certified,
+   or the corruption does not touch what the generated types enforce) *)
+Definition info_rejection_not_proved (c : rcase) : bool :=
+  forallb (fun v => negb (String.prefix "corrupt:" (v_label v)) ||
+                    (exact_certified c && negb (enforced_on c (v_payload v)))) (r_vectors c).
